@@ -163,3 +163,81 @@ func hostRemovedMidPlan(c *Ctx, idx int) {
 	}
 	r.Obs("host_removed_mid_plan_outcome:"+strings.SplitN(ri.Kind, " ", 2)[0], 1)
 }
+
+// unpreparedAlongThePlan: an idempotent EXECUTE whose statement every host has forgotten. Each host it reaches answers
+// UNPREPARED first (the proxy re-prepares and re-executes there, which is not a policy retry), then the scripted outcome:
+// a retry-next error on the first hosts, rows on the last one. The traversal must still visit host after host, execute on
+// each of them, and end with the rows: "fail over to healthy hosts ... an idempotent request succeeds whenever some host in
+// its plan answers successfully".
+func unpreparedAlongThePlan(c *Ctx, idx int) {
+	r := c.R
+	hosts := 2 + idx%3
+	errs := []string{"Overloaded", "IsBootstrapping", "ServerError", "TruncateError"}
+	first := errs[idx%len(errs)]
+	key := fmt.Sprintf("unprepared-along-the-plan/h%d/%s", hosts, first)
+	scenario := map[string]interface{}{"kind": "unprepared-along-the-plan", "idx": idx}
+	c.Step("c05 %s", key)
+	bed, err := px.NewBed(px.BedConfig{Hosts: hosts, NumConns: 1, Keyspaces: []string{"ks1"}, ReconnectBase: 20 * time.Millisecond, ReconnectMax: 50 * time.Millisecond})
+	if err != nil {
+		r.Inconc("unprepared-along-the-plan: cannot start bed: " + err.Error())
+		return
+	}
+	defer bed.Close()
+	bed.OnHook(nil)
+	tok := NewTok()
+	bed.Cluster.SetScript(func(a *fakecass.Arrival) fakecass.Outcome {
+		if a.Token != tok {
+			return fakecass.Outcome{}
+		}
+		if a.K >= hosts { // the script is consulted once per host (the automatic UNPREPARED answers do not consult it)
+			return fakecass.Rows()
+		}
+		switch first {
+		case "IsBootstrapping":
+			return fakecass.Err(first, &message.IsBootstrapping{ErrorMessage: tok + " bootstrapping"})
+		case "ServerError":
+			return fakecass.Err(first, &message.ServerError{ErrorMessage: tok + " server error"})
+		case "TruncateError":
+			return fakecass.Err(first, &message.TruncateError{ErrorMessage: tok + " truncate error"})
+		}
+		return fakecass.Err(first, &message.Overloaded{ErrorMessage: tok + " overloaded"})
+	})
+	cl, err := bed.ReadyClient(primitive.ProtocolVersion4, []string{"", "lz4"}[idx%2])
+	if err != nil {
+		r.Inconc("unprepared-along-the-plan: handshake: " + err.Error())
+		return
+	}
+	defer cl.Close()
+	if err := PrepareStandard(bed, cl, true); err != nil {
+		r.Inconc("unprepared-along-the-plan: prepare: " + err.Error())
+		return
+	}
+	for _, h := range bed.Cluster.Hosts {
+		h.Forget()
+	}
+	mark := bed.Log.Len()
+	reply, werr := cl.CallF(BuildRequest(primitive.ProtocolVersion4, 1, KExecute, true, tok, primitive.ConsistencyLevelOne), 20*time.Second)
+	r.Eval(1)
+	r.Obs("unprepared_along_the_plan_cases", 1)
+	attempts := Traces(bed.Log.Snapshot()[mark:])[tok]
+	executed := map[int]bool{}
+	unprep := 0
+	for _, a := range attempts {
+		if a.Outcome == "Unprepared" {
+			unprep++
+		} else if a.Outcome != "" {
+			executed[a.Host] = true
+		}
+	}
+	if unprep >= 2 {
+		r.NonTrivial(key)
+	}
+	if werr != nil || reply == nil {
+		r.Violate(mon.Violation{Signature: "C05/unprepared-along-the-plan/no-reply", Detail: fmt.Sprintf("%d hosts, all without the statement, the first %d answer %s after the re-prepare: no reply (attempts %s)", hosts, hosts-1, first, describe(attempts)), Scenario: scenario, Witness: attempts})
+		return
+	}
+	ri := replyInfoComp([]string{"", "lz4"}[idx%2], reply)
+	if ri.Kind != "Rows" || ri.Tok != tok {
+		r.Violate(mon.Violation{Signature: "C05/unprepared-along-the-plan/not-failed-over-to-healthy-host/" + first, Detail: fmt.Sprintf("%d hosts, all without the statement (it is in the proxy's prepared cache); the first %d answer %s once re-prepared, the last one would answer rows: the client got %s %q; the request was executed on %d host(s) (attempts %s)", hosts, hosts-1, first, ri.Kind, ri.ErrMsg, len(executed), describe(attempts)), Scenario: scenario, Witness: attempts})
+	}
+}
